@@ -10,7 +10,7 @@ from __future__ import annotations
 import ast
 
 from mlmverif import cfg as cfgm
-from mlmverif.core import (AnalysisError, Ctx, FuncInfo, is_self_attr, kwarg,
+from mlmverif.core import (parent_map, AnalysisError, Ctx, FuncInfo, is_self_attr, kwarg,
                            unparse, walk_no_nested)
 from mlmverif.locks import LockEngine, ls_has
 
@@ -37,7 +37,7 @@ CLSN = 'PrefetchedCourierServer'
 
 
 def run(ctx: Ctx):
-  for r in (r1, r2, r3, r4, r5, r8, r12, r13, r14, r15, r16, r18):
+  for r in (r1, r2, r3, r4, r5, r8, r12, r13, r14, r15, r16, r18, r19):
     ctx.guard(r)
   from mlmverif.props._queue import model as qmodel
   from mlmverif.props import c05
@@ -688,10 +688,78 @@ def r18(ctx: Ctx):
   ctx.floor(rule, 4, n)
 
 
+def r19(ctx: Ctx):
+  rule = 'R-C15-19'
+  ctx.rule(rule, '"shutting down stops the previous one [generator]": the serving loop (run_until_shutdown) ends in'
+           ' _shutdown_server, which stops the courier server and runs the shutdown callback (the stop routine of the'
+           ' prefetching server). Whether it does so depends on the SERVER\'s state only — the guard around'
+           ' `self._server.Stop()` / the callback reads no attribute that only start() sets (the serving thread'
+           ' `self._thread`), neither directly nor through a property of the class. run_until_shutdown() is also the entry'
+           ' point of a worker binary that serves from its main thread: with a guard on the thread such a server leaves its'
+           ' loop still bound and serving, its generator still being advanced')
+  repo = ctx.repo
+  base = repo.cls(CS, 'CourierServer')
+  sd = base.methods.get('_shutdown_server')
+  start = base.methods.get('start')
+  if sd is None or start is None:
+    raise AnalysisError(f'{rule}: CourierServer._shutdown_server / start not found')
+  # attributes bound only by start() (outside __init__, where they get their "not started" default)
+  def stores(m):
+    return {t.attr for x in ast.walk(m.node) if isinstance(x, (ast.Assign, ast.AnnAssign))
+            for t in (x.targets if isinstance(x, ast.Assign) else [x.target]) if is_self_attr(t)}
+  only_start = stores(start)
+  for name, m in base.methods.items():
+    if name not in ('start', '__init__'):
+      only_start -= stores(m)
+  if not only_start:
+    raise AnalysisError(f'{rule}: start() binds no attribute of its own (the serving thread) any more')
+
+  def reads(expr, depth=0):
+    out = set()
+    for y in ast.walk(expr):
+      if is_self_attr(y):
+        out.add(y.attr)
+        prop = base.methods.get(y.attr)
+        if prop is not None and depth < 2 and any('property' in unparse(d) for d in prop.node.decorator_list):
+          out |= reads(prop.node, depth + 1)
+    return out
+  n = 0
+  pm = parent_map(sd.node)
+  for c in ast.walk(sd.node):
+    is_stop = isinstance(c, ast.Call) and (unparse(c.func).endswith('_server.Stop') or unparse(c.func).endswith('_shutdown_callback'))
+    if not is_stop:
+      continue
+    n += 1
+    bad = None
+    q = c
+    while q in pm:
+      par = pm[q]
+      if isinstance(par, ast.If) and any(q is b or any(y is q for y in ast.walk(b)) for b in par.body):
+        dep = reads(par.test) & only_start
+        if dep:
+          bad = (par, dep)
+      q = par
+    what = f'CourierServer._shutdown_server: `{unparse(c)}` is guarded by the server state only'
+    if bad:
+      ctx.fail(rule, sd, what,
+               f'`{unparse(c)}` runs only under `{unparse(bad[0].test)}`, which reads {sorted("self." + a for a in bad[1])} — set by'
+               ' start() alone: a server that serves from run_until_shutdown() directly is never stopped by its shutdown'
+               ' request, and its prefetched generator keeps running', node=bad[0])
+    else:
+      ctx.ok(rule, sd, what, c)
+  ctx.floor(rule, 2, n)
+
+
 from mlmverif.selfcheck import B, OK  # noqa: E402
 
 _F = 'chainables/courier_server.py'
 VARIANTS = [
+    B('revert-shutdown-only-for-a-threaded-server', 'chainables/courier_server.py',
+      "      if self._server is not None and self._server.has_started:\n        if self._shutdown_callback is not None:",
+      "      if self.has_started:\n        assert self._server is not None, 'Server is not built.'\n        if self._shutdown_callback is not None:", 'R-C15-19'),
+    OK('shutdown-guard-through-a-local', 'chainables/courier_server.py',
+       "      if self._server is not None and self._server.has_started:\n        if self._shutdown_callback is not None:",
+       "      raw = self._server\n      if raw is not None and raw.has_started:\n        if self._shutdown_callback is not None:"),
     B('handler-drops-the-queue-after-the-end-marker', 'chainables/courier_server.py',
       "        result.append(StopIteration(*self._generator.returned))\n", "        result.append(StopIteration(*self._generator.returned))\n        self._generator = None\n", 'R-C15-18'),
     B('enqueue-loop-never-rereads-the-stop', 'utils/iter_utils.py',
